@@ -550,12 +550,13 @@ impl Stream {
         self.consumer_groups.list_groups()
     }
     
-    /// Read entries for a consumer group
+    /// Read entries for a consumer group: `after_id` is None for ">" (new entries only),
+    /// or the explicit ID after which the consumer's own pending entries are read again
     pub fn read_group(
         &self,
         group_name: &str,
         consumer_name: &str,
-        after_id: StreamId,
+        after_id: Option<StreamId>,
         count: Option<usize>,
         noack: bool
     ) -> Result<Vec<StreamEntry>, String> {
@@ -565,7 +566,7 @@ impl Stream {
         
         // An explicit ID reads the consumer's own history: its pending entries after that ID.
         // Nothing new becomes pending and the group's last delivered ID does not move.
-        if after_id != StreamId::max() {
+        if let Some(after_id) = after_id {
             let ids = group.redeliver_pending(consumer_name, after_id, count);
             let data = self.data.lock().unwrap();
             let entries: Vec<StreamEntry> = ids
@@ -592,7 +593,7 @@ impl Stream {
             Ok(pending_entries)
         } else {
             // NOACK: nothing becomes pending, but a ">" read still consumes the entries
-            if after_id == StreamId::max() {
+            if after_id.is_none() {
                 if let Some(last_entry) = entries.last() {
                     if last_entry.id > group.get_last_id() {
                         group.set_id(last_entry.id);
